@@ -4,7 +4,10 @@ selects exactly the matching cells.
 Monitor: every call goes through the library function wrapped as a formula reaches it
 (vp.lib.fn/call); ~2 % of the sampled cases are additionally written into a real worksheet and
 evaluated by ExcelCompiler (all functions of the case as formulas) and must agree with the
-library-level outcome.
+library-level outcome.  A compiled formula hands a one-cell range to the function as the bare cell
+value, so every 1x1 case is also run in that "single-cell argument" form, with the same oracle (this
+is what exposes a blank cell as third argument of SUMIF/AVERAGEIF being taken for "omitted").
+Criteria holding LF / CR / backslash are not sent through a formula literal (C02's business).
 
 Oracle (vp/refmodel/criteria.py, written from the statement, three-valued YES / NO / OPEN per cell):
   * positions: AND over the criteria pairs (NO wins, then OPEN, else YES).
@@ -42,7 +45,10 @@ Deliberately permissive (statement silent or readable two ways):
   " 3 "), blank (None) criteria, arrays as criteria.
 
 Mechanism keys are predicates over the failing call (function family, class of the criterion,
-class of the cell): see exc_key(), malformed_key(), diagnose().
+class of the cell): see exc_key(), malformed_key(), mechanism(), diagnose(), diagnose_partition().
+A wrong value is first traced to a single criteria-range cell (1-cell COUNTIF against a closed verdict
+of the reference matcher); only if every single cell is right is the key <FAMILY>/criteria-intersection
+(several pairs) or <FAMILY>/aggregation / count (one pair).
 """
 import itertools
 
@@ -61,7 +67,7 @@ RULE = ('(a) exhaustive table: every pool cell (numbers, numeric text, texts in 
         'list.  A case = one function call checked by the oracle; non-trivial = the criteria discriminate on '
         'the drawn ranges (at least one position not rejected and one rejected) or the ranges differ in shape; '
         'distinct = by (function, ranges, criteria).')
-BUDGET = {'quick': 10, 'thorough': 200}
+BUDGET = {'quick': 8, 'thorough': 200}
 FLOORS = {
     # the first three are set to the exact size of the deterministic parts further down
     'quick': {'table:cells-x-criteria': 1, 'fixed-range-cases': 1, 'shape-mismatch-pairs': 1,
